@@ -23,9 +23,23 @@ pub struct Ctx {
     pub known_open: Vec<(String, String)>, // (signature, what)
     /// name of the build configuration this binary was compiled as (fast, exact, fast-fma, ...)
     pub build: String,
+    /// reduced workload (used when a suite runs as a sub-suite of C20 in several build configurations)
+    pub light: bool,
 }
 
 impl Ctx {
+    /// number of generated cases for a tier; the light mode runs a fifth of the quick count
+    pub fn cases(&self, q: u32, t: u32) -> u32 {
+        if self.quick() {
+            if self.light {
+                (q / 5).max(1)
+            } else {
+                q
+            }
+        } else {
+            t
+        }
+    }
     pub fn quick(&self) -> bool {
         self.tier == Tier::Quick
     }
@@ -427,4 +441,85 @@ pub fn journal(case: impl FnOnce() -> Value) {
 /// classification of a caught panic message
 pub fn is_hook_panic(msg: &str) -> bool {
     msg.contains("VERIF-HOOK")
+}
+
+// ---------------------------------------------------------------- value minimisation (shrinking of a failing pixel)
+
+/// Greedy simplification of a failing f32 triple: each component is moved towards "simple" values
+/// (0, 1, 0.5, fewer significant digits) as long as `fails` still holds. The result still fails.
+pub fn minimize_px(mut p: [f32; 3], lo: f32, hi: f32, fails: impl Fn([f32; 3]) -> bool) -> [f32; 3] {
+    if !fails(p) {
+        return p;
+    }
+    for _round in 0..3 {
+        let mut changed = false;
+        for i in 0..3 {
+            let orig = p[i];
+            let mut cands: Vec<f32> = vec![0.0, 1.0, 0.5, lo, hi];
+            for digits in [1i32, 2, 3, 4, 5] {
+                let m = 10f32.powi(digits);
+                cands.push((orig * m).round() / m);
+            }
+            // halve the distance to zero
+            cands.push(orig / 2.0);
+            for c in cands {
+                if c.to_bits() == orig.to_bits() || !(c >= lo && c <= hi) {
+                    continue;
+                }
+                // only accept candidates that are "simpler": fewer mantissa bits or smaller magnitude
+                let simpler = (c.to_bits().trailing_zeros() > orig.to_bits().trailing_zeros()) || c.abs() < orig.abs();
+                if !simpler {
+                    continue;
+                }
+                let mut q = p;
+                q[i] = c;
+                if fails(q) {
+                    p = q;
+                    changed = true;
+                    break;
+                }
+            }
+        }
+        if !changed {
+            break;
+        }
+    }
+    p
+}
+
+/// Greedy simplification of a failing code triple: components are moved towards `target` (e.g. the
+/// neutral code) by bisection as long as `fails` still holds.
+pub fn minimize_codes(mut c: [u16; 3], target: [u16; 3], fails: impl Fn([u16; 3]) -> bool) -> [u16; 3] {
+    if !fails(c) {
+        return c;
+    }
+    for _round in 0..2 {
+        for i in 0..3 {
+            // try the target itself, then bisect towards it
+            let mut q = c;
+            q[i] = target[i];
+            if fails(q) {
+                c = q;
+                continue;
+            }
+            let (mut good, mut bad) = (c[i] as i64, target[i] as i64); // good = still failing
+            while (good - bad).abs() > 1 {
+                let mid = (good + bad) / 2;
+                let mut q = c;
+                q[i] = mid as u16;
+                if fails(q) {
+                    good = mid;
+                } else {
+                    bad = mid;
+                }
+            }
+            c[i] = good as u16;
+        }
+    }
+    c
+}
+
+/// simplification of a single failing f32 value
+pub fn minimize_f32(x: f32, lo: f32, hi: f32, fails: impl Fn(f32) -> bool) -> f32 {
+    minimize_px([x, 0.0, 0.0], lo, hi, |p| p[1] == 0.0 && p[2] == 0.0 && fails(p[0]))[0]
 }
